@@ -8,6 +8,7 @@ from collections import deque
 from replay.common import main
 
 OPS = ['start', 'stop', 'clear', 'probe']
+# 'backlog': three publications for a slow subscriber are still waiting when the next operation runs
 _n = [0]
 
 
@@ -16,6 +17,8 @@ def scenarios(seed, tier, failed):
         for ops in itertools.product(OPS, repeat=n):
             if 'start' in ops:
                 yield {'kind': 'fabric', 'ops': list(ops), 'timeout': 30}
+    yield {'kind': 'fabric', 'ops': ['start', 'backlog', 'stop', 'start', 'probe'], 'timeout': 30}
+    yield {'kind': 'fabric', 'ops': ['start', 'backlog', 'stop'], 'timeout': 30}
     rnd = random.Random(seed)
     for _ in range(200 if tier == 'quick' else 3000):
         yield {'kind': 'fabric', 'ops': [rnd.choice(OPS) for _ in range(rnd.randint(4, 9))], 'timeout': 30}
@@ -54,12 +57,33 @@ def run(sc):
                 af.start()
                 running = True
             elif op == 'stop':
-                th = threading.Thread(target=af.stop, daemon=True)
+                err = []
+
+                def do_stop():
+                    try:
+                        af.stop()
+                    except BaseException as ex:
+                        err.append(repr(ex))
+                th = threading.Thread(target=do_stop, daemon=True)
                 th.start()
-                th.join(2.0)
+                th.join(3.0)
+                if err:
+                    return False, 'step %d: stop() raised %s after %s' % (i, err[0], sc['ops'][:i]), 'stop:'
                 if th.is_alive():
                     return False, 'step %d: stop() does not return after %s (delivery threads wait on queues the fabric no longer holds)' % (i, sc['ops'][:i]), 'clear:'
                 running = False
+            elif op == 'backlog' and running:
+                class Slow(deque):
+                    def append(self, x):
+                        time.sleep(0.15)
+                        deque.append(self, x)
+                _n[0] += 1
+                nm = 'BACKLOG_%d' % _n[0]
+                af.subscribe(Slow(maxlen=10), Event(signal=nm))
+                for _ in range(3):
+                    af.publish(Event(signal=nm))
+                time.sleep(0.02)
+                continue
             elif op == 'clear':
                 af.clear()
             elif op == 'probe' and running:
